@@ -160,6 +160,9 @@ func CheckOutcome(cmd *Cmd, ex Expect, got Outcome, mt *MTable) (fails []Fail, q
 			}
 		}
 	case "BatchWrite":
+		if len(got.UnprocEmpty) != 0 {
+			add("C19.write", "UnprocessedItems names %v without a single request (a caller looping until the map is empty never ends)", got.UnprocEmpty)
+		}
 		if len(got.Unproc) != 0 {
 			add("C19.write", "successful batch with no failure active reported unprocessed requests %v", batchCanon(got.Unproc))
 		}
@@ -189,6 +192,9 @@ func CheckOutcome(cmd *Cmd, ex Expect, got Outcome, mt *MTable) (fails []Fail, q
 			if _, ok := want.Resp[t]; !ok && len(got.Resp[t]) > 0 {
 				add("C19.get", "BatchGetItem returned items for table %s that was not requested", t)
 			}
+		}
+		if len(got.UnprocEmpty) != 0 {
+			add("C19.get", "UnprocessedKeys names %v without a single key (a caller looping until the map is empty never ends)", got.UnprocEmpty)
 		}
 		absent := 0
 		for _, uk := range got.UnprocKeys {
